@@ -1199,3 +1199,26 @@ def run(idx, rep, tier):
     from .shared import share
     from .c14 import r7 as _c14r7
     share(k, 'C12.R22', 'a WRITE answered with anything but a status is a failure (= C14.R7): the reply type is checked for status-only requests too, so a dropped block is not counted as written', _c14r7, keep=lambda key: 'reply type' in key)
+    rep.rule('C12.R23', 'SFTPClient._copy: the size handed to the block '
+             'copier comes from attributes that are known to carry one - '
+             'the construction is reached only past a test of '
+             '"srcattrs.size is None" (whose true branch fetches the '
+             'attributes with stat): a READDIR entry need not carry a '
+             'size, and "size or 0" would then copy nothing and report '
+             'success')
+    _fcp = k.func('sftp.SFTPClient._copy')
+    _gcp = k.cfg(_fcp)
+    _mk = [n for n, c in k.calls_named(_fcp, '_SFTPFileCopier')]
+    rep.floor('C12.R23', 'copier constructions', len(_mk), 1)
+    _tst = [a.id for a in _gcp.nodes if a.kind == 'atom' and isinstance(
+        a.ast, ast.Compare) and dotted(a.ast.left) == 'srcattrs.size' and
+        any(isinstance(c, ast.Constant) and c.value is None
+            for c in a.ast.comparators)]
+    for _n in _mk:
+        _w = _gcp.path(_gcp.entry, _n.id, blocked_nodes=_tst)
+        rep.check(bool(_tst) and _w is None, 'C12.R23',
+                  key(_fcp, 'missing size is looked up'),
+                  'srcattrs.size tested for None before the copy',
+                  'get(\'d\', dst, recurse=True) from a server whose '
+                  'listing carries no sizes leaves every file empty and '
+                  'reports success', k.loc(_fcp, _n))
